@@ -668,9 +668,11 @@ class AshProtocol(asyncio.Protocol):
                         self._change_ack_timeout((7 / 8) * self._t_rx_ack + 0.5 * delta)
 
                         if attempt >= ACK_TIMEOUTS - 1:
-                            self._enter_failed_state(
-                                t.NcpResetCode.ERROR_EXCEEDED_MAXIMUM_ACK_TIMEOUT_COUNT
-                            )
+                            # An ERROR frame may have already reported the failure
+                            if self._ncp_state != NcpState.FAILED:
+                                self._enter_failed_state(
+                                    t.NcpResetCode.ERROR_EXCEEDED_MAXIMUM_ACK_TIMEOUT_COUNT
+                                )
                             raise
                     except NcpFailure:
                         _LOGGER.debug(
@@ -689,9 +691,11 @@ class AshProtocol(asyncio.Protocol):
                         self._change_ack_timeout(2 * self._t_rx_ack)
 
                         if attempt >= ACK_TIMEOUTS - 1:
-                            self._enter_failed_state(
-                                t.NcpResetCode.ERROR_EXCEEDED_MAXIMUM_ACK_TIMEOUT_COUNT
-                            )
+                            # An ERROR frame may have already reported the failure
+                            if self._ncp_state != NcpState.FAILED:
+                                self._enter_failed_state(
+                                    t.NcpResetCode.ERROR_EXCEEDED_MAXIMUM_ACK_TIMEOUT_COUNT
+                                )
                             raise
                     else:
                         # Whenever an acknowledgement is received, t_rx_ack is set to
